@@ -608,10 +608,12 @@ class TimeTriggeredPlanValidator(engines.engine.Engine, mixins.PlanValidatorMixi
                 )
                 next_id += 1
 
+        # invariants have no end: the interval helper leaves out the state *at* a finite end,
+        # which would be the state produced by the last happening of the plan
         for invariant in problem.state_invariants:
             durative_conditions.append(
                 (
-                    (Fraction(0), plan_duration, False),
+                    (Fraction(0), None, False),
                     next_id,
                     invariant,
                     None,
@@ -637,7 +639,7 @@ class TimeTriggeredPlanValidator(engines.engine.Engine, mixins.PlanValidatorMixi
                 for bound in bounds:
                     durative_conditions.append(
                         (
-                            (Fraction(0), plan_duration, False),
+                            (Fraction(0), None, False),
                             next_id,
                             bound,
                             None,
